@@ -33,9 +33,12 @@ def run(tier, seed):
         sc1.append(hc.scen("c2_p2", RACE[2], T=2, ck=1, p=2, j=8, deadline=dl))
         sc2.append(hc.scen("r0", RACE[0], T=1, ck=2, p=1, d=1, j=4, deadline=dl))
         sc2.append(hc.scen("r1", RACE[1], T=1, ck=1, p=1, d=1, j=4, deadline=dl))
+        # ties at the timestamp of a remote event that is cancelled after it was processed
+        sc2.append(hc.scen("r_ties", T(2, [5, 1], [1, 5, 2], P=0, K=6, M=1, H=7), T=1, ck=3, p=1, d=1, j=4, deadline=dl))
         # longer horizon: several early remote anti-messages pending on one LP at the same time
         sc2.append(hc.scen("r0h6", T(2, [1, 2], [2, 1, 7], P=5, K=5, H=6), T=1, ck=1, p=1, d=1, j=4, deadline=dl))
     else:
+        sc2.append(hc.scen("r_ties", T(2, [5, 1], [1, 5, 2], P=0, K=6, M=1, H=7), T=1, ck=3, p=1, d=1, j=4, deadline=dl))
         sc2.append(hc.scen("r0h6", T(2, [1, 2], [2, 1, 7], P=5, K=5, H=6), T=1, ck=1, p=1, d=1, j=4, deadline=dl))
         for i, m in enumerate(RACE):
             sc1.append(hc.scen(f"f{i}", m, T=2, ck=2, p=1, fine="flags,queue", j=4, deadline=dl))
